@@ -30,7 +30,7 @@ ASSUMPTIONS = [
 ]
 TECHNIQUE = "reference-model runtime monitor (residual from oracle bases, exact-rank degeneracy) + intrinsic p/z and chi-square identities"
 DESIGN_REF = "DESIGN.md 4 C12"
-WEIGHTS = ["none", "frac", "zeros"]
+WEIGHTS = ["none", "frac", "zeros", "float"]
 INS = ["none", "sum", "diff"]
 REQUIRED_REACH = ["zscores", "pvals", "p_from_z", "degenerate_all_nan", "chi_square_2x2",
                   "residual_test_stats", "class:degenerate", "class:regular",
@@ -70,6 +70,8 @@ def make_case(unit):
     if ins != "none" and mode != "twobytwo":
         cases.attach_insertions(g, facets, transforms, allow_diff=(ins == "diff"),
                                 hide_some=False)
+    if wmode == "float" and g.chance(0.5) and mode != "twobytwo":
+        cases.add_total_subtotals(facets, transforms)
     spec = sim.CubeSpec(facets, g.weights(N, wmode), ())
     return {"template": template, "spec": sim.spec_to_dict(spec), "transforms": transforms,
             "ins": ins, "mode": mode}
@@ -200,7 +202,9 @@ def _slice(res, L, t, part):
                 continue
             e = Fraction(rb) * Fraction(cb) / Fraction(tb)
             var = e * (1 - Fraction(rb) / Fraction(tb)) * (1 - Fraction(cb) / Fraction(tb))
-            if var <= 0:
+            if var <= 0 or abs(tb - rb) <= 1e-9 * abs(tb) or abs(tb - cb) <= 1e-9 * abs(tb):
+                # (with weights that are not exactly representable a margin equal to the
+                # table base shows as equal up to rounding)
                 if np.isfinite(z[i, j]):
                     zero_var_bad = zero_var_bad or {"at": [i, j], "got": float(z[i, j]),
                                                     "n_rb_cb_tb": vals}
